@@ -21,7 +21,7 @@ from vf.checks.sess import NOTICE
 from vf.engine import evid, par
 
 C = L.LDAPResultCode
-PA = [L.PartialAttribute("cn", [b"v", b""])]
+PA = [L.PartialAttribute("cn", [b"v", b"", b"v", b""])]  # an attribute may repeat a value on the wire: it arrives as sent
 FILT = L.FilterAnd([L.FilterEquality("cn", b"a*("), L.FilterPresent("objectClass")])
 CTRL = [L.PagedResultControl(True, 1000, b"ck")]
 
@@ -451,7 +451,36 @@ def backlog_scenarios() -> t.Iterator[t.Tuple[str, t.List[t.List[t.Any]]]]:
     yield "server-backlog-then-unbind-lag700", [["c", "search"], ["flush", "c2s"], ["s", "entry_big", 1], ["s", "done", 1], ["s", "unbind", 0], ["flush", "s2c"]]
 
 
+def late_registration(ctx: evid.Ctx) -> None:
+    """Both ends register an application filter type AFTER they have already exchanged a search: the next search, which
+    uses it, must arrive (a type looked up through a table built on first use would not be found)."""
+    from vf.checks.c19 import FFilter
+
+    for order in ("both-late", "server-late"):
+        c, s = L.LDAPClient(), L.LDAPServer()
+        ctx.add("long_run_histories")
+        try:
+            if order == "server-late":
+                c.register_filter(FFilter)
+            c.search_request("dc=x", filter=L.FilterPresent("a"))
+            got = s.receive(c.data_to_send())
+            s.search_result_done(got[0].message_id)
+            c.receive(s.data_to_send())
+            if order == "both-late":
+                c.register_filter(FFilter)
+            s.register_filter(FFilter)
+            want = L.FilterAnd([FFilter("late"), L.FilterNot(FFilter("x"))])
+            c.search_request("dc=x", filter=want)
+            got = s.receive(c.data_to_send())
+            ctx.add("transitions", 6)
+            if len(got) != 1 or got[0].filter != want:
+                ctx.violation("received-differs:c2s:search:filter", f"[late registration, {order}] the server received {A.src(got[0].filter) if got else None}", {"K": 10**6, "cuts": True, "history": [], "late": order})
+        except L.ProtocolError as e:
+            ctx.violation("unexpected-protocol-error:c2s", f"[late registration, {order}] a search using a filter type both ends registered after their first exchange: {e}", {"K": 10**6, "cuts": True, "history": [], "late": order})
+
+
 def run_long(ctx: evid.Ctx) -> None:
+    late_registration(ctx)
     scen = list(long_scenarios())
     scen += [(name + "-lag700", hist) for name, hist in scen if name.startswith("pipeline-30") or name == "pipeline-12-next"]
     scen += list(backlog_scenarios())
@@ -573,4 +602,9 @@ def run(ctx: evid.Ctx) -> None:
 
 
 def replay(case: t.Dict[str, t.Any], key: t.Optional[str] = None) -> t.Tuple[bool, str]:
+    if case.get("late"):
+        c = evid.Ctx("C11", "quick", 0)
+        late_registration(c)
+        hits = [v for k, v in c.viol.items() if key is None or k == key]
+        return (not hits), "\n".join(f"  {v['key']}: {v['what']}" for v in hits) or "a filter type registered after the first exchange is used by the next search"
     return replay_history(case["history"], case["K"], case.get("cuts", True))
